@@ -5,6 +5,7 @@ _ENG = {"crate": "core", "bin": "sv-c09", "machine": "c09", "nontrivial_min_ops"
 PROP = {
     "generated": ["ReconTables"],
     "lean_modules": ["SwimVerif.Model.Recon", "SwimVerif.Model.ReconProto", "SwimVerif.Proofs.Recon",
+                     "SwimVerif.Proofs.ReconStruct",
                      "SwimVerif.Generated.ReconTables"],
     "engines": [
         # model values -> real printers (exact text vs model print) and print/parse cycles (vs model parse)
